@@ -120,4 +120,3 @@ func cmsSemantics(env *Env, v Variant, blob []byte, embed func(nb []byte) ([]byt
 }
 
 var semSkipped []string
-
